@@ -1,4 +1,5 @@
-from tools import vlib
+import os
+from tools import vlib, cli
 
 RULE = ("every fixture / corpus / generated program plus 15 hand-written edge programs (empty, comment-only, CRLF, non-ASCII strings / comments / "
         "escapes, long names, deep nesting, odd numerals, call sugar chains, methods and varargs, Luau / 5.2 / 5.4 syntax) parsed under the "
@@ -6,16 +7,62 @@ RULE = ("every fixture / corpus / generated program plus 15 hand-written edge pr
         "configuration with catch_unwind: no panic, every diagnostic's lint name exists, every primary / secondary range has start <= end, "
         "lies inside the source and on character boundaries; generated libraries that round-trip through YAML text (incl. fields naming "
         "undefined structs and odd deprecation formats such as %0, %99999999999999999999, lone %) against programs that read, call and "
-        "assign their paths; Deprecated::try_instead vs the Lean model; non-trivial = a case that produced diagnostics or used a generated library")
+        "assign their paths; hostile-but-loadable libraries through the real binary (cyclic / dangling / 400-deep Roblox class hierarchies, struct "
+        "cycles through fields and wildcards): the process must neither panic nor overflow its stack; Deprecated::try_instead vs the Lean model; non-trivial = a case that produced diagnostics or used a generated library")
 
 
 def body(ctx):
     n = 120 if ctx.tier == "quick" else 2500
     outdir, meta = ctx.harness("c11", n)
     ctx.correspond(outdir, nontrivial_tag=lambda t: True)
+    hostile_libraries(ctx)
     ctx.notes.append(f"diagnostics whose names and ranges were checked: {ctx.stats.get('diagnostics_checked', 0)}; "
                      f"generated libraries with a dangling struct reference: {ctx.stats.get('library_with_dangling_struct_reference', 0)}; "
                      f"program x dialect pairs that do not parse (skipped): {ctx.stats.get('does_not_parse_under_this_dialect', 0)}")
+
+
+HOSTILE_LIBS = {
+    # libraries that load without error; linting with them must not crash (a stack overflow kills the whole process,
+    # so these run through the real binary, one process per case)
+    "class-cycle-2": "---\nname: roblox\nroblox_classes:\n  A:\n    superclass: B\n    properties: []\n    events: []\n  B:\n    superclass: A\n    properties: []\n    events: []\n",
+    "class-cycle-self": "---\nname: roblox\nroblox_classes:\n  A:\n    superclass: A\n    properties: [Size]\n    events: []\n",
+    "class-cycle-3": "---\nname: roblox\nroblox_classes:\n  A:\n    superclass: B\n    properties: []\n    events: []\n  B:\n    superclass: C\n    properties: []\n    events: []\n  C:\n    superclass: A\n    properties: [Size]\n    events: [Changed]\n",
+    "class-dangling-super": "---\nname: roblox\nroblox_classes:\n  A:\n    superclass: Nowhere\n    properties: []\n    events: []\n",
+    "class-chain-long": "---\nname: roblox\nroblox_classes:\n" + "".join(
+        f"  K{i}:\n    superclass: K{i + 1}\n    properties: []\n    events: []\n" for i in range(400)) + "  K400:\n    superclass: Instance\n    properties: [Size]\n    events: []\n",
+    "struct-cycle": "---\nname: roblox\nglobals:\n  g:\n    struct: S\nstructs:\n  S:\n    next:\n      struct: T\n  T:\n    back:\n      struct: S\n    \"*\":\n      struct: S\n",
+    "struct-self-wildcard": "---\nname: roblox\nglobals:\n  g:\n    struct: S\nstructs:\n  S:\n    \"*\":\n      struct: S\n",
+}
+HOSTILE_PROGRAM = (
+    "local e = Roact.createElement\n"
+    "Roact.createElement(\"A\", { Foo = 1, Size = 2, [Roact.Event.Bar] = function() end, [Roact.Event.Changed] = print })\n"
+    "e(\"K0\", { Size = 1, Nope = 2, [Roact.Event.Nope] = print })\n"
+    "e(\"B\", { Foo = 1 })\n"
+    "print(g.next.back.next.x.y.z, g.a.b.c.d.e, g.next.nope)\n"
+    "g.next.back = 1\n"
+)
+
+
+def hostile_libraries(ctx):
+    for name, text in HOSTILE_LIBS.items():
+        d = os.path.join(ctx.workdir, "hostile-" + name)
+        os.makedirs(d, exist_ok=True)
+        with open(os.path.join(d, "roblox.yml"), "w") as fh:
+            fh.write(text)
+        with open(os.path.join(d, "prog.lua"), "w") as fh:
+            fh.write(HOSTILE_PROGRAM)
+        cli.write_config(d, std="roblox")
+        for style in ("json2", "quiet"):
+            rc, out, err = cli.run_selene(["--display-style", style, "--num-threads", "1", "prog.lua"], d, timeout=120)
+            ctx.evaluations += 1
+            ctx.nontrivial.add(("hostile", name, style))
+            loaded = "failed to parse" not in err and "error parsing" not in err.lower()
+            crashed = rc not in (0, 1) or "panicked" in err or "overflowed its stack" in err
+            if loaded and crashed:
+                ctx.violation(f"implementation violates the specification: [C11] the library `{name}` loads without error, "
+                              f"then linting crashes (exit status {rc})",
+                              f"directory: {d}\nroblox.yml:\n{text[:600]}\nprog.lua:\n{HOSTILE_PROGRAM}\nstyle: {style}\nexit status: {rc}\nstderr (tail):\n{err[-600:]}")
+    ctx.stats["hostile_library_runs"] = 2 * len(HOSTILE_LIBS)
 
 
 def check(ctx):
@@ -23,4 +70,4 @@ def check(ctx):
         "of the ~250 unwrap / expect / unreachable sites only those listed in Props/C11.lean are modelled; the rest rely on full_moon invariants and are covered by the catch_unwind run only (support, not proof)",
         "a panic inside full_moon's parser is counted against C11 (the CLI worker dies) although it cannot be repaired in selene",
     ]
-    return vlib.standard_check(ctx, ["Selene.Props.C11"], body, trusted=vlib.BASE_TRUST, rule=RULE)
+    return vlib.standard_check(ctx, ["Selene.Props.C11"], body, trusted=vlib.BASE_TRUST, rule=RULE, need_selene=True)
